@@ -232,21 +232,44 @@ def check(rep, F, tier, replay=None):
                                 tr = True
                     if not ne or not tr:
                         rep.violation("STRICT", "%s|%s" % (ctor, "not-enough" if not ne else "trailing"), "the strict parser's %s arm lacks the %s exit: %s input would be accepted" % (ctor, "NotEnough" if not ne else "TrailingData (unless lenient)", "truncated" if not ne else "over-long"), {})
-    b = find_fn(rep, F, "ByronAddress::from_bytes")
-    if b:
+    # every stand-alone Byron entry point: the function that owns the cursor compares consumed and total length
+    owners = {}
+    for fid, fn in F.fns.items():
+        if "/tests/" in fn["file"] or F.is_derived(fid):
+            continue
+        cs = F.calls(fid)
+        if any("Cursor::<T>::new" in (c.to or "") for c in cs) and any((c.to or "").endswith("::deserialize") for c in cs) and any(l == "legacy_address::address::ExtendedAddr" for l in fn["locals"]):
+            owners[fid] = fn
+    entries = [fid for fid, fn in F.fns.items() if F.key(fid).startswith("ByronAddress::") and "/tests/" not in fn["file"] and not F.is_derived(fid)]
+    reach = set()
+    for e in entries:
+        seen_, stack_ = {e}, [(e, 0)]
+        while stack_:
+            x, d_ = stack_.pop()
+            if x in owners:
+                reach.add(x)
+            if d_ >= 4:
+                continue
+            for c in F.calls(x) if x in F.fns else []:
+                t_ = c.to_id if hasattr(c, "to_id") else None
+                for cand in ([t_] if t_ else [f2 for f2 in F.fns if c.to and (f2 == c.to or F.fns[f2].get("t") == c.to)]):
+                    if cand and cand not in seen_:
+                        seen_.add(cand)
+                        stack_.append((cand, d_ + 1))
+    rep.floor("cursor-owning Byron parsers reachable from ByronAddress entry points", 2, len(reach))
+    for b in sorted(reach):
         rep.inst("STRICT")
-        fn = F.fns[b]
-        org = ff.Origins(F, b)
         ok = False
         for bi, kind, loc in mp.success_stores(F, b):
-            for s, edge, d in mp.dominating_guards(F, b, bi):
+            for s_, edge, d in mp.dominating_guards(F, b, bi):
                 if d["kind"] == "bin" and d["op"] in ("Ne", "Eq"):
                     both = d["lhs"] + d["rhs"]
-                    if has_origin(both, call_origin("Cursor::<T>::position")) and has_origin(both, call_origin("Vec::<T, A>::len")):
+                    if has_origin(both, call_origin("Cursor::<T>::position")) and (has_origin(both, call_origin("Vec::<T, A>::len")) or has_origin(both, call_origin("::len")) or "arg:1" in both):
                         if (d["op"] == "Ne" and edge == "0") or (d["op"] == "Eq" and edge != "0"):
                             ok = True
         if not ok:
-            rep.violation("STRICT", "Byron|trailing", "ByronAddress::from_bytes returns Ok without having compared the consumed length with the input length: bytes after the CRC-protected address are silently dropped", {})
+            k_ = F.key(b)
+            rep.violation("STRICT", "Byron|trailing" if k_ == "ByronAddress::from_bytes" else "Byron|trailing|%s" % k_, "%s returns Ok without having compared the consumed length with the input length: bytes after the CRC-protected address are silently dropped (ByronAddress::from_base58 / is_valid accept base58(address ++ 00) and re-encode it differently)" % k_, {})
     # ---------------- NAT ----------------------------------------------------------------------
     rep.rule("NAT", "variable_nat_decode: accumulator wider than 64 bits, > u64::MAX rejected before narrowing, Some only on a byte without continuation bit, None at end of input")
     d = find_fn(rep, F, "protocol_types::address::variable_nat_decode")
